@@ -59,6 +59,7 @@ NOTES = [
  (r"^ide::ide::signature_help::signature_help_for_call/assert/Overflow/[012]$", "small counters over argument lists (+1) and `len - 1` inside a loop over a non-empty vector"),
  (r"^ide::ty::display::next_letter/assert/(RemainderByZero|DivisionByZero)/0$", "alphabet_length is the constant 26"),
  (r"^ide::ty::display::next_letter/assert/Overflow/[01]$", "n < 26 so n + 97 fits u8; rest -= 1 happens only after the rest == 0 test"),
+ (r"^ide::def::body::Body::representative_binder/api/Index::index\[Arena\]/0$", "the pattern id was just answered by this body's own source map (pattern_for_node of body_with_source_map(it)): an id of this arena"),
  (r"^ide::ty::infer::Collector::collect/", "cache was created with table.len() entries and i = table.find(..) < table.len()"),
  (r"^ide::ty::infer::Collector::collect_uncached/assert/Overflow/0$", "uid counts generic letters handed out in one function"),
  (r"^ide::ty::infer::InferCtx::(infer_expr_inner|infer_pattern|infer_stmts_iter)/api/Index::index\[Body\]/\d$", "ids are children of nodes of the same Body, which lowering allocated in that Body"),
